@@ -1,17 +1,189 @@
 /-
-  C09 — auth-event selection matches the spec; authorization reads nothing else. (work in progress)
+  C09 — auth-event selection matches the spec; authorization reads nothing else.
 -/
-import RumaModel.Model.Auth
-import RumaModel.Model.AuthReads
-import RumaModel.Spec.AuthTypes
+import RumaModel.Lemmas.AuthRestrict
+import RumaModel.Lemmas.AuthTypesSpec
+import RumaModel.Props.C08
 namespace Ruma.Props.C09
-open Ruma Ruma.Auth
+open Ruma Ruma.Auth Ruma.Ident
+open Ruma.Spec.Auth (rulesOf)
 
-/-- `m.room.create` events select no auth events. -/
-theorem create_selects_nothing (rules : AuthRules) (ev : Event) (h : ev.type = tCreate) :
-    authTypesForEvent rules ev = .ok [] := by
-  simp [authTypesForEvent, h]
+/-- Every real room version has consistent flags (`knock_restricted` support implies `restricted`
+support) — the fact `auth_types_for_event` relies on when it selects the authorising user's
+membership only under `restricted_join_rule`. -/
+theorem versions_consistent : ∀ v ∈ Spec.Auth.versions, (rulesOf v).Consistent := by decide
+
+/-- **The selection is the specification's.** For every room version 1–11 and every event (all
+types, memberships, third-party-invite and restricted-join contents, malformed contents):
+`auth_types_for_event` fails exactly when the spec's selection meets an unreadable property, and
+otherwise returns exactly the spec's set of `(type, state_key)` pairs. -/
+theorem authTypes_eq_spec (v : Nat) (hv : v ∈ Spec.Auth.versions) (rules : AuthRules)
+    (hr : AuthRules.ofVersion? v = some rules) (ev : Event) :
+    AuthSpec.SameSelection (authTypesForEvent rules ev) (Spec.AuthTypes.selection v ev) := by
+  have : rules = rulesOf v := by
+    have := C08.ofVersion_eq_spec v hv
+    rw [hr] at this
+    exact Option.some.inj this
+  subst this
+  exact AuthSpec.authTypes_eq_spec v ev
+
+/-- **Authorization reads nothing but the selected auth events.** If the selection for `ev` is `S`,
+the decision against any state equals the decision against that state with every entry outside `S`
+removed. (`rules.Consistent` holds for every room version, `versions_consistent`.) -/
+theorem authCheck_reads_subset (rules : AuthRules) (hc : rules.Consistent) (ev : Event) (f : Fetch)
+    (S : List (Str × Str)) (hS : authTypesForEvent rules ev = .ok S) :
+    authCheck rules ev f = authCheck rules ev (restrict f S) :=
+  authCheck_restrict rules hc ev f S hS
+
+/-- **Non-interference.** Two states that agree on the selected pairs give the same decision:
+adding, removing or replacing any other state entry never changes it. -/
+theorem authCheck_agree_on_selection (rules : AuthRules) (hc : rules.Consistent) (ev : Event) (f g : Fetch)
+    (S : List (Str × Str)) (hS : authTypesForEvent rules ev = .ok S)
+    (hfg : ∀ k ∈ S, f k.1 k.2 = g k.1 k.2) :
+    authCheck rules ev f = authCheck rules ev g := by
+  rw [authCheck_reads_subset rules hc ev f S hS, authCheck_reads_subset rules hc ev g S hS,
+    restrict_congr hfg]
+
+/-- The state reads of the model (the read set compared with the recorded reads of the real
+`auth_check` on every run) lie inside the selection. -/
+theorem model_reads_within_selection (rules : AuthRules) (hc : rules.Consistent) (ev : Event) (f : Fetch)
+    (S : List (Str × Str)) (hS : authTypesForEvent rules ev = .ok S) :
+    ∀ k ∈ authReads rules ev f, k ∈ S :=
+  authReads_subset rules hc ev f S hS
+
+/-- The full-strength statement planned in DESIGN.md: when the selection itself fails, the event is
+rejected whatever the state. -/
+def authCheck_types_errorStatement : Prop :=
+  ∀ (rules : AuthRules) (ev : Event) (f : Fetch),
+    authTypesForEvent rules ev = .error () → authCheck rules ev f = false
+
+/-- The class the statement fails on: a `join` whose `join_authorised_via_users_server` is unreadable,
+under rules with restricted joins (the selection needs the property, `auth_check` reads it only
+when the join rule is `restricted` / `knock_restricted`). -/
+def UnreadAuthorisingUser (rules : AuthRules) (ev : Event) : Prop :=
+  contentMembership ev.content = .ok mJoin ∧ rules.restrictedJoinRule = true ∧
+    contentJoinAuthorised ev.content = .error ()
+
+/-- When the selection fails the event is rejected whatever the state — except in the class
+`UnreadAuthorisingUser` (see `types_error_but_allowed`, findings/C09.json). -/
+theorem authCheck_types_error_partial (rules : AuthRules) (ev : Event) (f : Fetch)
+    (hS : authTypesForEvent rules ev = .error ()) (hx : ¬ UnreadAuthorisingUser rules ev) :
+    authCheck rules ev f = false := by
+  rw [authCheck_false]
+  intro h
+  by_cases hcr : ev.type = tCreate
+  · simp [authTypesForEvent, hcr] at hS
+  · have e1 : (ev.type == tCreate) = false := by simpa using hcr
+    by_cases hm : ev.type = tMember
+    · obtain ⟨create, -, h⟩ := authCheckR_member hm h
+      have e2 : (tMember == tCreate) = false := by decide
+      simp only [authTypesForEvent, hm, e2, Bool.false_eq_true, if_false, beq_self_eq_true, if_true] at hS
+      cases hsk : ev.stateKey with
+      | none => simp [checkRoomMember, hsk] at h
+      | some sk =>
+        cases hmem : contentMembership ev.content with
+        | error e => simp [checkRoomMember, hsk, hmem, bind, Except.bind, require] at h; split at h <;> simp at h
+        | ok m =>
+          rw [checkRoomMember_eq hsk hmem] at h
+          simp only [hsk, hmem, bind, Except.bind] at hS
+          by_cases hi : m = mInvite
+          · subst hi
+            have c2 : (mInvite == mJoin) = false := by decide
+            simp only [beq_self_eq_true, if_true, c2, Bool.false_and, Bool.false_eq_true, if_false] at hS
+            have htp : tpiAuthType ev.content
+                (if (false || true || mInvite == mKnock) = true then
+                  pushNew (pushNew [(tPowerLevels, []), (tMember, ev.sender), (tCreate, [])] (tMember, sk)) (tJoinRules, [])
+                else pushNew [(tPowerLevels, []), (tMember, ev.sender), (tCreate, [])] (tMember, sk)) = .error () := by
+              split at hS
+              · rename_i e he; cases e; exact he
+              · simp at hS
+            simp only [bind_eq_ok, require_eq_ok, c2, Bool.false_eq_true, if_false, beq_self_eq_true, if_true] at h
+            obtain ⟨-, -, h⟩ := h
+            unfold tpiAuthType at htp
+            unfold checkMemberInvite at h
+            cases hc : contentThirdPartyInvite ev.content with
+            | error e => simp [hc, bind, Except.bind] at h
+            | ok t =>
+              cases t with
+              | none => simp [hc, bind, Except.bind] at htp
+              | some signed =>
+                simp only [hc, bind, Except.bind] at htp h
+                cases htok : tpiToken signed with
+                | ok tok => simp [htok] at htp
+                | error e =>
+                  simp [checkThirdPartyInvite, htok, bind, Except.bind] at h
+                  split at h <;> try simp at h
+                  split at h <;> simp at h
+          · have c1 : (m == mInvite) = false := by simpa using hi
+            simp only [c1, Bool.false_eq_true, if_false] at hS
+            by_cases hj : (m == mJoin && rules.restrictedJoinRule) = true
+            · simp only [hj, if_true] at hS
+              apply hx
+              simp only [Bool.and_eq_true, beq_iff_eq] at hj
+              refine ⟨hj.1 ▸ hmem, hj.2, ?_⟩
+              unfold authorisedAuthType at hS
+              cases hv : contentJoinAuthorised ev.content with
+              | error e => rfl
+              | ok via => cases via <;> simp [hv, bind, Except.bind] at hS
+            · simp [hj] at hS
+    · have e2 : (ev.type == tMember) = false := by simpa using hm
+      simp [authTypesForEvent, e1, e2] at hS
+
+/-! ### Concrete rooms -/
+
+section Examples
+open Ruma.Props.C08
+
+/-- A `join` into a public v8 room whose `join_authorised_via_users_server` is the number 1. -/
+def exOddJoin : Event :=
+  { eventId := bs "$ev", roomId := bs "!room:s1", sender := exAlice, type := tMember, stateKey := some exAlice,
+    content := [(bs "join_authorised_via_users_server", .int 1), (bs "membership", .str mJoin)],
+    authEvents := [bs "$create"], prevEvents := [bs "$x"] }
+
+/-- The negation witness: the selection fails, yet the event is allowed. -/
+theorem types_error_but_allowed :
+    authTypesForEvent AuthRules.v8 exOddJoin = .error () ∧
+    authCheck AuthRules.v8 exOddJoin exPublicState = true := by
+  constructor
+  · rfl
+  · decide +kernel
+
+theorem authCheck_types_errorStatement_refuted : ¬ authCheck_types_errorStatement := by
+  intro h
+  have := h AuthRules.v8 exOddJoin exPublicState types_error_but_allowed.1
+  rw [types_error_but_allowed.2] at this
+  exact absurd this (by decide)
+
+/-- The hypotheses of `authCheck_reads_subset` are satisfiable: the selection of a knock. -/
+example : authTypesForEvent AuthRules.v7 exKnock =
+    .ok [(tPowerLevels, []), (tMember, exAlice), (tCreate, []), (tJoinRules, [])] := rfl
+
+/-- … and removing an unselected entry (Bob's membership) does not change the decision, as the theorem says. -/
+example :
+    authCheck AuthRules.v7 exKnock (exState [exCreate, exJoinRules jrKnock, exMember exBob mBan]) =
+    authCheck AuthRules.v7 exKnock (exState [exCreate, exJoinRules jrKnock]) := by decide +kernel
+
+/-- A selection failure outside the excluded class: a member event without `membership`. -/
+def exNoMembership : Event := { exOddJoin with content := [] }
+
+example : authTypesForEvent AuthRules.v8 exNoMembership = .error () ∧
+    ¬ UnreadAuthorisingUser AuthRules.v8 exNoMembership := by
+  refine ⟨rfl, ?_⟩
+  intro h
+  have h1 : contentMembership exNoMembership.content = .ok mJoin := h.1
+  have h2 : contentMembership exNoMembership.content = .error () := rfl
+  rw [h2] at h1
+  exact absurd h1 (by simp)
+
+end Examples
 
 end Ruma.Props.C09
 
-#print axioms Ruma.Props.C09.create_selects_nothing
+#print axioms Ruma.Props.C09.versions_consistent
+#print axioms Ruma.Props.C09.authTypes_eq_spec
+#print axioms Ruma.Props.C09.authCheck_reads_subset
+#print axioms Ruma.Props.C09.authCheck_agree_on_selection
+#print axioms Ruma.Props.C09.model_reads_within_selection
+#print axioms Ruma.Props.C09.authCheck_types_error_partial
+#print axioms Ruma.Props.C09.types_error_but_allowed
+#print axioms Ruma.Props.C09.authCheck_types_errorStatement_refuted
